@@ -84,8 +84,9 @@ def summaries(g, counter=None, bound=None, bound_const=None, flag_fields=(), slo
             while d0[0] == 'un' and d0[1] == 'Not':
                 d0 = strip(d0[2])
                 par ^= 1
-            if d0[0] == 'local' and d0[1] in dict((b[0], b) for b in bools):
-                b = dict((b[0], b) for b in bools)[d0[1]]
+            bkey = d0[1] if d0[0] == 'local' else (('C', d0[3]) if d0[0] == 'call' else None)
+            if bkey is not None and bkey in dict((b[0], b) for b in bools):
+                b = dict((b[0], b) for b in bools)[bkey]
                 val = v ^ par
                 if b[1] == 'c':
                     if b[2] != val:
@@ -96,6 +97,23 @@ def summaries(g, counter=None, bound=None, bound_const=None, flag_fields=(), slo
                     if pred is not None and pred != pv:
                         return None
                     pred = pv
+                    d = None
+                elif b[1] == 'm':
+                    op, neg, k0 = b[2], b[3], b[4]
+                    truth = (val == 1) != neg
+                    if (op, truth) in REL:
+                        l2, h2 = REL[(op, truth)]
+                        lo, hi = _meet(lo, hi, _shift(l2, k0), _shift(h2, k0))
+                        if lo is not None and hi is not None and lo > hi:
+                            return None
+                    elif (op, truth) in (('Eq', False), ('Ne', True)):
+                        p0 = -k0
+                        if hi is not None and hi == p0:
+                            hi = p0 - 1
+                        if lo is not None and lo == p0:
+                            lo = p0 + 1
+                        if lo is not None and hi is not None and lo > hi:
+                            return None
                     d = None
                 elif b[1] == 'f':
                     fv = val ^ b[3]
@@ -171,7 +189,7 @@ def summaries(g, counter=None, bound=None, bound_const=None, flag_fields=(), slo
                 pops = min(pops + 1, 3)
         if kind == 'call' and not n['ctx'] and n['name'] in ('std::option::Option::unwrap', 'std::option::Option::expect') and n['args'] and _is_pop(strip(n['args'][0])):
             pops = min(pops + 1, 3)
-        if kind == 'assign' and n['lhs'][0] == 'local' and not n['ctx']:
+        if kind == 'assign' and n['lhs'][0] == 'local':
             lid = n['lhs'][1]
             r0 = strip(n['rhs'])
             par = 0
@@ -179,13 +197,25 @@ def summaries(g, counter=None, bound=None, bound_const=None, flag_fields=(), slo
                 r0 = strip(r0[2])
                 par ^= 1
             nb = None
-            if const_bool(r0) is not None:
+            cm = cmp_of(n['rhs'])
+            if cm:
+                nb = (lid, 'm', cm[0], cm[1], k)      # a comparison of the counter with the bound, evaluated after k increments
+            elif const_bool(r0) is not None:
                 nb = (lid, 'c', (1 if const_bool(r0) else 0) ^ par)
             elif r0[0] == 'call' and pred_call(r0) is not None:
                 nb = (lid, 'p', par)
             elif r0[0] == 'field' and _last_field(r0) in flag_fields:
                 nb = (lid, 'f', _last_field(r0), par)
             bools = tuple(sorted([b for b in bools if b[0] != lid] + ([nb] if nb else []), key=repr))
+        if kind == 'exit' and n.get('value') and n['value'][0] == 'call' and n.get('body'):
+            # the value an inlined helper returns: what its return slot holds on this path
+            L = (n['ctx'] + ((n['fn'], n['bb'], n['body']),), 0)
+            bd = dict((b[0], b) for b in bools)
+            ck = ('C', n['value'][3])
+            rest = [b for b in bools if b[0] != ck]
+            if L in bd:
+                rest.append((ck,) + bd[L][1:])
+            bools = tuple(sorted(rest, key=repr))
         if kind == 'call' and not n['ctx'] and n.get('dest') and n['dest'][0] == 'local' and pred_call(n['value']) is not None and n['name'] in FN_CALLS:
             lid = n['dest'][1]
             bools = tuple(sorted([b for b in bools if b[0] != lid] + [(lid, 'p', 0)], key=repr))
